@@ -165,14 +165,15 @@ def assignment(ver):
     return st.tuples(*parts).map(lambda t: dict((k, v) for k, v in zip(keys, t) if v is not None))
 
 
-GROUP_MODES = ("absent", "all-nd", "nd-mixed", "partial", "full")
+GROUP_MODES = ("absent", "all-nd", "nd-mixed", "partial", "full", "mirror", "mirror-only")
 
 
 def assignment_grouped(ver):
     """
     strategy: like assignment(), but every optional GROUP (temporal/threat, environmental, supplemental)
     draws a mode first: absent (no metric of the group written), all-nd (every metric written as Not
-    Defined), nd-mixed (absent or Not Defined), partial (anything), full (every metric a defined value).
+    Defined), nd-mixed (absent or Not Defined), partial (anything), full (every metric a defined value), mirror / mirror-only
+    (Modified metrics copy their base metrics).
     Whole-group shapes are what 'is this group used at all' shortcuts key on.
     """
     st = _st()
@@ -209,6 +210,14 @@ def assignment_grouped(ver):
                 elif mode == "partial":
                     if anyv is not None:
                         d[m] = anyv
+                elif mode in ("mirror", "mirror-only"):
+                    # every Modified metric written as a plain copy of its base metric (some calculators always append that block);
+                    # the metrics without a base counterpart: defined ('mirror') or left out ('mirror-only')
+                    base = spec.MODIFIED.get(ver, {}).get(m)
+                    if base is not None and d.get(base) in V.table[m]:
+                        d[m] = d[base]
+                    elif mode == "mirror":
+                        d[m] = defv
                 else:
                     d[m] = defv
         return d
@@ -221,14 +230,29 @@ def prefix_of(ver):
 
 
 def order_seed():
-    """0 = official order; otherwise the seed of a shuffle (a pure function of the drawn integer)"""
+    """0 = official order; 1..7 = a systematic order (what a tool keeping metrics in a sorted, reversed or grouped mapping writes);
+    otherwise the seed of a shuffle (a pure function of the drawn integer)"""
     st = _st()
-    return st.one_of(st.just(0), st.integers(1, 2 ** 32 - 1))
+    return st.one_of(st.just(0), st.integers(1, 7), st.integers(8, 2 ** 32 - 1), st.integers(8, 2 ** 32 - 1))
 
 
 def ordered(keys, official, oseed):
     ks = [k for k in official if k in keys]
-    if oseed:
+    if oseed == 1:
+        ks.sort()                                   # alphabetical
+    elif oseed == 2:
+        ks.sort(reverse=True)
+    elif oseed == 3:
+        ks.reverse()                                # official order backwards
+    elif oseed == 4:
+        ks.sort(key=lambda k: (len(k), k))          # short names first
+    elif oseed == 5:
+        ks.sort(key=lambda k: k.lower()[::-1])      # by last letter
+    elif oseed == 6:
+        ks = ks[1:] + ks[:1]                        # official order rotated by one
+    elif oseed == 7:
+        ks = ks[-1:] + ks[:-1]
+    elif oseed:
         random.Random(oseed).shuffle(ks)
     return ks
 
